@@ -50,6 +50,31 @@ GROUPS = {
     "TlsSess": dict(imports=["TLX.PyRt", "TLX.Session"], decls=[]),
     "Reasm": dict(imports=["TLX.PyRt", "TLX.Reassembly"], decls=[]),
     "Checksum": dict(imports=["TLX.PyRt"], decls=[]),
+    "QuicDissect2": dict(imports=["TLX.PyRt", "TLX.Quic.Packet", "TLX.Gen.Translated.Varint", "TLX.Gen.Translated.QuicDissect"],
+                         decls=["""/-- a `LongQuicPacket` / `ShortQuicPacket` as constructed: the keyword arguments given (absent ones: `none`) -/
+structure QuicPacketObj where
+  header : TLX.Quic.HType
+  packet_type : TLX.Quic.PType
+  isserver : Bool
+  ts : Nat
+  first_byte : Sum Nat Bytes
+  dcid : Bytes
+  version : Option Bytes
+  dcid_len : Option Bytes
+  scid_len : Option Bytes
+  scid : Option Bytes
+  token_len : Option Nat
+  token_len_bytes : Option Bytes
+  token : Option Bytes
+  packet_len : Option Bytes
+  packet_len_bytes : Option Bytes
+  packet_num : Option Bytes
+  payload : Option Bytes
+  key_phase : Option Nat
+  retry_token : Option Bytes
+  retry_integ_tag : Option Bytes
+  deriving DecidableEq, Repr
+"""]),
     "Suites": dict(imports=["TLX.PyRt", "TLX.CipherSuiteTypes"], decls=[]),
     # the frame class constructors call the two varint functions: this group rests on Varint's definitions
     "Frames": dict(imports=["TLX.PyRt", "TLX.Quic.FrameTypes", "TLX.Gen.Translated.Varint"], decls=[]),
@@ -324,6 +349,41 @@ SPECS.append(dict(name="parse_frames", group="Frames", file="tlexport/quic/quic_
                   calls={"GenericFrame": dict(lean=f"construct {CLS}.GenericFrame", args=["Bytes", None], ret="FrameObj", raises=True)},
                   attr_funcs={("FrameObj", "length"): ("FrameObj.length", "Nat")}))
 
+# quic_dissector.py: byte_xor / byte_and, remove_header_protection (the two mask primitives are one external function of
+# (chacha?, key, sample)) and extract_quic_packet (struct formats with static field kinds, keyword constructors as records,
+# `except Exception`, UnboundLocalError). `keys` is a dict of byte strings (a missing name: KeyError).
+MASK = ("hpMask", "Bool → Bytes → Bytes → Except PyRt.Err Bytes")
+PKT_FIELDS = [("packet_type", PT), ("isserver", "Bool"), ("ts", "Nat"), ("first_byte", "Nat|Bytes"), ("dcid", "Bytes"),
+              ("version", "Option Bytes"), ("dcid_len", "Option Bytes"), ("scid_len", "Option Bytes"), ("scid", "Option Bytes"),
+              ("token_len", "Option Nat"), ("token_len_bytes", "Option Bytes"), ("token", "Option Bytes"),
+              ("packet_len", "Option Bytes"), ("packet_len_bytes", "Option Bytes"), ("packet_num", "Option Bytes"),
+              ("payload", "Option Bytes"), ("key_phase", "Option Nat"), ("retry_token", "Option Bytes"),
+              ("retry_integ_tag", "Option Bytes")]
+QD = "tlexport/quic/quic_dissector.py"
+for _n in ("byte_xor", "byte_and"):
+    SPECS.append(dict(name=_n, group="QuicDissect2", file=QD, func=_n, params=[("byte1", "Bytes"), ("byte2", "Bytes")], ret="Bytes"))
+BYTE_CALLS = {n: dict(lean=n, args=["Bytes", "Bytes"], ret="Bytes", raises=True) for n in ("byte_xor", "byte_and")}
+RHP_PARAMS = ["header_type", "sample", "first_packet_byte", "hp_key", "datagram_data", "pn_offset", "ciphersuite"]
+RHP_TYPES = [HT, "Bytes", "Nat", "Bytes", "Bytes", "Nat", "Option Bytes"]
+SPECS.append(dict(name="remove_header_protection", group="QuicDissect2", file=QD, func="remove_header_protection",
+                  externals=[MASK], params=list(zip(RHP_PARAMS, RHP_TYPES)), ret="Bytes × Bytes × Nat", consts=HTYPE,
+                  calls={**BYTE_CALLS, "decode_variable_length_int": VARINT_CALLS["decode_variable_length_int"],
+                         "make_hp_mask": dict(lean="hpMask false", args=["Bytes", "Bytes"], ret="Bytes", raises=True),
+                         "make_chacha_hp_mask": dict(lean="hpMask true", args=["Bytes", "Bytes"], ret="Bytes", raises=True)}))
+SPECS.append(dict(name="extract_quic_packet", group="QuicDissect2", file=QD, func="extract_quic_packet",
+                  externals=[MASK], objects=["in_packet"],
+                  params=[("isserver", "Bool"), ("guessed_dcid", "Bytes"), ("keys", "Dict Str Bytes"), ("ciphersuite", "Option Bytes")],
+                  places=[("in_packet.tls_data", "tls_data", "Bytes", "rw"), ("in_packet.timestamp", "timestamp", "Nat", "r")],
+                  ret="List QuicPacketObj", consts={**HTYPE, **PTYPE},
+                  locals={"fmt_string": "Fmt", "packet_buf": "List QuicPacketObj", "total_packet_len": "Nat"},
+                  calls={**VARINT_CALLS,
+                         "get_header_type": dict(lean="get_header_type", args=["Bytes"], ret=HT, raises=True),
+                         "get_packet_type": dict(lean="get_packet_type", params=["datagram_data"], args=["Bytes"], ret=f"Option {PT}", raises=True),
+                         "remove_header_protection": dict(lean="remove_header_protection hpMask", params=RHP_PARAMS, args=RHP_TYPES,
+                                                          ret="Bytes × Bytes × Nat", raises=True)},
+                  ctors={"LongQuicPacket": dict(type="QuicPacketObj", fields=PKT_FIELDS, consts=[f"header := {HT}.long"], ignore=["supported_version"]),
+                         "ShortQuicPacket": dict(type="QuicPacketObj", fields=PKT_FIELDS, consts=[f"header := {HT}.short"])}))
+
 # cipher_suite_parser.py: the two tables re-derived from the dict displays (classes named by the last identifier of the
 # expression that denotes them) and `split_cipher_suite`
 VAL = "TLX.CipherSuite.Val"
@@ -382,7 +442,7 @@ THEOREMS = _uniq(theorem_of(s) for s in SPECS)
 
 
 # a group whose definitions call another group's: it cannot be proved when that one is broken
-GROUP_DEPS = {"Frames": ["Varint"]}
+GROUP_DEPS = {"Frames": ["Varint"], "QuicDissect2": ["Varint", "QuicDissect"]}
 
 
 def group_modules(groups):
@@ -399,8 +459,8 @@ MODULES = group_modules(GROUPS)          # all groups (`TLX.Props.Translated` im
 # property → the groups whose translated functions its model functions are (what the check proves besides its own modules)
 CHECK_GROUPS = {
     "C01": ["TlsSess", "Suites"],
-    "C02": ["QuicDissect", "QuicSess", "Pn", "Varint", "Frames"],
-    "C03": ["TlsSess", "QuicDissect"],
+    "C02": ["QuicDissect", "QuicSess", "Pn", "Varint", "Frames", "QuicDissect2"],
+    "C03": ["TlsSess", "QuicDissect", "Varint", "QuicDissect2"],
     "C04": ["Demux", "QuicSess", "QuicDissect"],
     "C05": ["Reasm"],
     "C07": ["Ports"],
@@ -729,6 +789,79 @@ def _cases(rng, n):
                        for _ in range(rng.randint(0, 3)))
         k, v = call(qf.parse_frames, pay, None)
         out.append(("parse_frames", _b(pay), (".ok [" + ", ".join(_frame(f) for f in v) + "]") if k == "ok" else f".error .{v}"))
+        # quic_dissector.py: extract_quic_packet with a toy header-protection mask (the same function on both sides)
+        def toy(chacha):
+            def f(key, sample):
+                if len(key) < 1 or len(sample) < 16:
+                    raise ValueError("toy mask")
+                return bytes((x ^ key[0] ^ (0x55 if chacha else 0)) for x in sample[:5])
+            return f
+        old_masks = (dis.make_hp_mask, dis.make_chacha_hp_mask)
+        dis.make_hp_mask, dis.make_chacha_hp_mask = toy(False), toy(True)
+        try:
+            def vint(n):
+                return bytes([n]) if n < 64 else (0x4000 | n).to_bytes(2, "big")
+            guessed = rb(0, 3)
+            kind = rng.choice(["initial", "handshake", "rtt0", "retry", "vneg", "short", "short", "noise", "zeros"])
+            if kind == "short":
+                dg = bytes([0x40 | rng.randrange(64)]) + guessed + rb(0, 40)
+            elif kind == "noise":
+                dg = rb(0, 30)
+            elif kind == "zeros":
+                dg = bytes(rng.randint(1, 5))
+            else:
+                t = {"initial": 0, "rtt0": 1, "handshake": 2, "retry": 3, "vneg": rng.randrange(4)}[kind]
+                dc, sc = rb(0, 3), rb(0, 3)
+                dg = bytes([0xc0 | t << 4 | rng.randrange(16)]) + (b"\0\0\0\0" if kind == "vneg" else rng.choice([b"\0\0\0\1", b"\x6b\x33\x43\xcf"]))
+                dg += bytes([len(dc)]) + dc + bytes([len(sc) if rng.random() < 0.9 else 0x40]) + sc
+                if kind == "initial":
+                    tok = rb(0, 3)
+                    dg += vint(len(tok)) + tok
+                if kind in ("initial", "handshake", "rtt0"):
+                    body = rb(0, 40)
+                    dg += vint(max(0, len(body) + rng.choice([0, 0, 0, -3, 5]))) + body
+                    dg += rng.choice([b"", b"", bytes(3), rb(1, 25)])                  # coalesced remainder
+                else:
+                    dg += rb(0, 24)
+            if rng.random() < 0.15:
+                dg = dg[:rng.randint(0, len(dg))]
+            names = ["server_initial_hp", "client_initial_hp", "server_handshake_hp", "client_handshake_hp", "client_early_hp",
+                     "server_application_hp", "client_application_hp"]
+            kd = {nm: rb(1, 3) for nm in names if rng.random() < 0.93}
+            csu = rng.choice([None, b"\x13\x01", b"\x13\x03"])
+            isv = rng.random() < 0.5
+            pk_in = NS(tls_data=dg, timestamp=rng.randrange(1000))
+            k, v = call(dis.extract_quic_packet, pk_in, isv, guessed, kd, csu)
+        finally:
+            dis.make_hp_mask, dis.make_chacha_hp_mask = old_masks
+
+        def lstr(t):
+            return "[" + ", ".join(str(ord(c)) for c in t) + "]"
+        kdl = "(fun k => " + "".join(f"if k = {lstr(nm)} then some {_b(val)} else " for nm, val in kd.items()) + "none)"
+
+        def pobj(o):
+            long = type(o).__name__ == "LongQuicPacket"
+            def ob(name):
+                x = getattr(o, name, None)
+                return "none" if x is None else f"(some {_b(x)})"
+            def on(name):
+                x = getattr(o, name, None)
+                return "none" if x is None else f"(some {x})"
+            fb = o.first_byte
+            ptn = {v_: k_ for k_, v_ in PTYPE.items()}
+            pt = PTYPE["QuicPacketType." + o.packet_type.name][0]
+            return ("{ header := " + (HT + ".long" if long else HT + ".short") + f", packet_type := {pt}, isserver := {_bool(o.isserver)}, ts := {o.ts}, "
+                    f"first_byte := {'Sum.inl ' + str(fb) if isinstance(fb, int) else 'Sum.inr ' + _b(fb)}, dcid := {_b(o.dcid)}, version := {ob('version')}, "
+                    f"dcid_len := {ob('dcid_len')}, scid_len := {ob('scid_len')}, scid := {ob('scid')}, token_len := {on('token_len')}, "
+                    f"token_len_bytes := {ob('token_len_bytes')}, token := {ob('token')}, packet_len := {ob('packet_len')}, "
+                    f"packet_len_bytes := {ob('packet_len_bytes')}, packet_num := {ob('packet_num')}, payload := {ob('payload')}, "
+                    f"key_phase := {on('key_phase')}, retry_token := {ob('retry_token')}, retry_integ_tag := {ob('retry_integ_tag')} }}")
+        toyl = ("(fun c k s => if k.length < 1 ∨ s.length < 16 then .error .value else "
+                ".ok ((s.take 5).map fun x => x ^^^ (k.headD 0) ^^^ (if c then 0x55 else 0)))")
+        csl = "none" if csu is None else f"(some {_b(csu)})"
+        pkts, pin = v
+        out.append(("extract_quic_packet", f"{toyl} {_bool(isv)} {_b(guessed)} {kdl} {csl} {_b(dg)} {pk_in.timestamp}",
+                    ".ok [" + ", ".join(pobj(o) for o in pkts) + f"] {{ tls_data := {_b(pin.tls_data)} }}"))
         # cipher_suite_parser.py: keys of the table and ids that are not
         csp = importlib.import_module("tlexport.cipher_suite_parser")
         sid = rng.choice(list(csp.cipher_suites)) if rng.random() < 0.85 else rb(0, 3)
@@ -813,7 +946,10 @@ OUTSIDE = [
     ("def f(x):\n    while x > 0:\n        x -= 1\n    return x\n", [("x", "Int")], "Int"),
     ("def f(x):\n    return x / 2\n", [("x", "Int")], "Int"),
     ("def f(x, y):\n    return x > 0 and y[0] == 1\n", [("x", "Int"), ("y", "Bytes")], "Bool"),
-    ("def f(x):\n    if x > 0:\n        y = 1\n    return y\n", [("x", "Int")], "Int"),
+    ("def f(x):\n    for i in range(x):\n        y = 1\n    return y\n", [("x", "Int")], "Int"),
+    ("def f(x):\n    return z\n", [("x", "Int")], "Int"),
+    ("def f(x, d):\n    return struct.unpack_from(\"H\" + str(x) + \"s\", d)[0]\n", [("x", "Int"), ("d", "Bytes")], "Int"),
+    ("def f(x, d):\n    return struct.unpack_from(x, d)[0]\n", [("x", "Str"), ("d", "Bytes")], "Int"),
     ("def f(x):\n    some = x + 1\n    return some\n", [("x", "Int")], "Int"),
     ("def f(x):\n    return x if x else 0\n", [("x", "Int")], "Int"),
     ("def f(x):\n    return g(x)\n", [("x", "Int")], "Int"),
@@ -828,7 +964,7 @@ OUTSIDE = [
     ("def f(x):\n    y = bytearray(x)\n    z = y\n    z.extend(x)\n    return y\n", [("x", "Bytes")], "Bytes"),
     ("def f(x):\n    return x == b'a'\n", [("x", "Int")], "Bool"),
     ("def f(x):\n    if x > 0:\n        return 1\n", [("x", "Int")], "Int"),
-    ("def f(x):\n    try:\n        return 1\n    except Exception:\n        return 2\n", [("x", "Int")], "Int"),
+    ("def f(x):\n    try:\n        return 1\n    except BaseException:\n        return 2\n", [("x", "Int")], "Int"),
     ("def f(x):\n    return int.from_bytes(x, 'little')\n", [("x", "Bytes")], "Nat"),
     ("def f(x):\n    return [i for i in range(x)]\n", [("x", "Int")], "Int"),
     ("def f(x):\n    self.y = x\n", [("x", "Int")], "None"),
